@@ -20,7 +20,8 @@ RULE = ('every workbook below is translated by the real Parser (per-case wall-cl
         'next to well-formed cells; (2) every prefix and every suffix-deletion of every corpus formula (truncated formulas); '
         '(3) every constant type openpyxl delivers x all strings up to length 2 (3) over 14 special characters; (4) sheet '
         'titles: all Excel-legal strings up to length 2 (3) over 11 special characters on 1-3 sheets with references to them; '
-        '(5) nesting sweeps: brackets, IF, function arguments, unary signs, & chains and dependency chains in both directions '
+        '(5) nesting / length sweeps: brackets, IF, function arguments, unary signs, & and + chains, long numbers / names / texts / '
+        'titles, and dependency chains in both directions '
         'up to the depth bound; (6) unsupported functions, array formulas, error values, formulas in every corpus position.  '
         'non-trivial = workbooks holding a malformed / unsupported formula, a special character or a depth > 8')
 ASSUMPTIONS = ['"never hangs" is decided as: every case finishes within the per-case budget (5 s quick, 20 s thorough; typical 20 ms)',
@@ -298,6 +299,18 @@ def nest_formula(shape, d):
         for k in range(d):
             f = f'IFERROR({f},{k}/0)'
         return '=' + f
+    if shape == 'long-number':
+        return '=' + '1' + '0' * d + '+1'
+    if shape == 'long-decimal':
+        return '=0.' + '3' * d
+    if shape == 'long-name':
+        return '=' + 'N' * (d + 1)
+    if shape == 'long-call':
+        return '=' + 'F' * (d + 1) + '(1)'
+    if shape == 'long-text':
+        return '="' + 'ab_' * d + '"&A1'
+    if shape == 'long-title-ref':
+        return '=' + 'T' * (d + 1) + '!A1'
     if shape == 'unclosed':
         return '=' + 'SUM(' * d + '1'
     if shape == 'overclosed':
@@ -305,7 +318,8 @@ def nest_formula(shape, d):
     raise AssertionError(shape)
 
 
-SHAPES = ['brackets', 'brackets-ops', 'if', 'if-else', 'sum', 'round-args', 'signs', 'amp', 'plus', 'iferror', 'unclosed', 'overclosed']
+SHAPES = ['brackets', 'brackets-ops', 'if', 'if-else', 'sum', 'round-args', 'signs', 'amp', 'plus', 'iferror', 'unclosed', 'overclosed',
+          'long-number', 'long-decimal', 'long-name', 'long-call', 'long-text', 'long-title-ref']
 
 
 def run_nesting(cases, stats):
